@@ -10,30 +10,81 @@ pub fn driver_path() -> String {
     std::env::var("VERIF_DRIVER").unwrap_or_else(|_| "/verif/build/driver/sdjwt_model".to_string())
 }
 
-fn run_shard(lines: Vec<String>) -> Vec<String> {
-    let mut child = Command::new(driver_path())
+/// one driver process over `lines`; returns the answers it produced before it ended (all of them unless it crashed, ran out
+/// of its memory allowance, or spent more than the per-request time allowance on one request)
+fn run_once(lines: &[String]) -> Vec<String> {
+    // the extracted code is not tail-recursive everywhere: a large stack for deep or long inputs, and a memory cap so that a
+    // request the model cannot digest ends the process instead of the machine
+    let mut child = Command::new("sh")
+        .arg("-c")
+        .arg("ulimit -s 1000000 2>/dev/null || true; ulimit -v 5000000 2>/dev/null || true; exec \"$0\"")
+        .arg(driver_path())
         .stdin(Stdio::piped())
         .stdout(Stdio::piped())
-        .stderr(Stdio::inherit())
+        .stderr(Stdio::null())
         .spawn()
         .expect("cannot start the model driver");
     let mut stdin = child.stdin.take().unwrap();
-    let n = lines.len();
+    let owned: Vec<String> = lines.to_vec();
     let writer = thread::spawn(move || {
-        for l in lines {
+        for l in owned {
             if stdin.write_all(l.as_bytes()).is_err() || stdin.write_all(b"\n").is_err() {
                 break;
             }
         }
         drop(stdin);
     });
-    let mut out = Vec::with_capacity(n);
-    let reader = BufReader::new(child.stdout.take().unwrap());
-    for l in reader.lines() {
-        out.push(l.unwrap_or_default());
+    let (tx, rx) = std::sync::mpsc::channel::<String>();
+    let stdout = child.stdout.take().unwrap();
+    let reader = thread::spawn(move || {
+        for l in BufReader::new(stdout).lines() {
+            if tx.send(l.unwrap_or_default()).is_err() {
+                break;
+            }
+        }
+    });
+    let allowance = std::time::Duration::from_secs(std::env::var("VERIF_MODEL_REQUEST_SECS").ok().and_then(|s| s.parse().ok()).unwrap_or(60));
+    let mut out = Vec::with_capacity(lines.len());
+    while out.len() < lines.len() {
+        match rx.recv_timeout(allowance) {
+            Ok(l) => out.push(l),
+            Err(std::sync::mpsc::RecvTimeoutError::Timeout) => {
+                let _ = child.kill();
+                break;
+            }
+            Err(_) => break,
+        }
     }
-    let _ = writer.join();
+    let _ = child.kill();
     let _ = child.wait();
+    let _ = writer.join();
+    let _ = reader.join();
+    out
+}
+
+/// a crash of the driver (e.g. stack exhaustion on one request) costs that one request only: the rest of the shard is re-run
+fn run_shard(lines: Vec<String>) -> Vec<String> {
+    let mut out: Vec<String> = Vec::with_capacity(lines.len());
+    let mut from = 0usize;
+    let mut restarts = 0usize;
+    while from < lines.len() {
+        let got = run_once(&lines[from..]);
+        let n = got.len();
+        out.extend(got);
+        from += n;
+        if from < lines.len() {
+            // the request at `from` killed the driver
+            out.push("{\"r\":\"driver-failure\"}".to_string());
+            from += 1;
+            restarts += 1;
+            if restarts > 50 {
+                while out.len() < lines.len() {
+                    out.push("{\"r\":\"driver-failure\"}".to_string());
+                }
+                break;
+            }
+        }
+    }
     out
 }
 
